@@ -181,20 +181,24 @@ func (l *Lexer) Next() (TokenType, []byte) {
 // The following functions follow the specifications at http://www.w3.org/html/wg/drafts/html/master/syntax.html
 
 func (l *Lexer) shiftDOCTYPEText() []byte {
-	inString := false
+	var quote byte
 	inBrackets := false
 	for {
 		c := l.r.Peek(0)
-		if c == '"' {
-			inString = !inString
-		} else if (c == '[' || c == ']') && !inString {
+		if c == 0 {
+			l.text = l.r.Lexeme()[9:]
+			return l.r.Shift()
+		} else if quote != 0 {
+			if c == quote {
+				quote = 0
+			}
+		} else if c == '"' || c == '\'' {
+			quote = c
+		} else if c == '[' || c == ']' {
 			inBrackets = (c == '[')
-		} else if c == '>' && !inString && !inBrackets {
+		} else if c == '>' && !inBrackets {
 			l.text = l.r.Lexeme()[9:]
 			l.r.Move(1)
-			return l.r.Shift()
-		} else if c == 0 {
-			l.text = l.r.Lexeme()[9:]
 			return l.r.Shift()
 		}
 		l.r.Move(1)
